@@ -16,6 +16,8 @@ def main():
     for b in BACKENDS:
         ps, m = gen.c01_programs(b, a.tier, a.seed)
         ps += gen.c04_programs(b, a.tier)      # partial operations in every lazy position (shared with C04)
+        # math functions (shared with C12): alone, inside arithmetic, on literal arguments
+        ps += [p for p in gen.c12_programs(b) if p.tags[-1] in ("standalone", "arith", "literal-args0", "literal-args2", "operator")]
         if a.tier == "quick" and b != "atlas":
             ps = ps[::3]          # CMS backends share common/: a representative third in quick
         meta["families"][b] = dict(m, programs=len(ps))
